@@ -227,6 +227,21 @@ static void eval_align(uint64_t idx, void *ctx) {
     h2 = aws_hash_c_string(b2 + o2);
     BEE_CHECK(h1 == h2, "equal-keys-hash-differently:alignment", "aws_hash_c_string: %s hash to %#llx and %#llx", desc, (unsigned long long)h1, (unsigned long long)h2);
     if (o1 != o2) table_check(aws_hash_byte_cursor_ptr, (aws_hash_callback_eq_fn *)aws_byte_cursor_eq, &c1, &c2, true, desc);
+    /* the same key as a view into larger storage: what follows the key (here 0xFF bytes, above a NUL) is not part of it
+     * (added after a seeded change whose word-at-a-time tail mask let one following byte into the hash) */
+    uint8_t *b3 = (uint8_t *)malloc(o1 + len + 8);
+    memcpy(b3 + o1, b1 + o1, len);
+    memset(b3 + o1 + len, 0xFF, 8);
+    struct aws_byte_cursor c3 = aws_byte_cursor_from_array(b3 + o1, len);
+    h1 = aws_hash_byte_cursor_ptr(&c1);
+    h2 = aws_hash_byte_cursor_ptr(&c3);
+    BEE_CHECK(h1 == h2, "equal-keys-hash-differently:following-bytes", "aws_hash_byte_cursor_ptr: %zu-byte key at offset %u (mod 8) hashes to %#llx when a NUL follows it and to %#llx when 0xFF bytes follow it", len, o1,
+              (unsigned long long)h1, (unsigned long long)h2);
+    h1 = aws_hash_byte_cursor_ptr_ignore_case(&c1);
+    h2 = aws_hash_byte_cursor_ptr_ignore_case(&c3);
+    BEE_CHECK(h1 == h2, "equal-keys-hash-differently:following-bytes", "aws_hash_byte_cursor_ptr_ignore_case: %zu-byte key at offset %u (mod 8) hashes to %#llx / %#llx depending on the bytes that follow it", len, o1,
+              (unsigned long long)h1, (unsigned long long)h2);
+    free(b3);
     free(b1);
     free(b2);
 }
